@@ -243,14 +243,17 @@ class ClassInfo:
 
 class Module:
 
-    def __init__(self, prog, rel, src):
+    def __init__(self, prog, rel, src, tree=None):
         self.prog = prog
         self.rel  = rel
         self.src  = src
-        try:
-            self.tree = ast.parse(src, filename=rel)
-        except SyntaxError as e:
-            raise AnalysisError('cannot parse %s: %s' % (rel, e))
+        if tree is not None:
+            self.tree = tree
+        else:
+            try:
+                self.tree = ast.parse(src, filename=rel)
+            except SyntaxError as e:
+                raise AnalysisError('cannot parse %s: %s' % (rel, e))
         self.classes = {}
         self.funcs   = {}
         self.assigns = {}     # name -> [value expr] (module top level)
@@ -338,10 +341,11 @@ class Module:
 #
 class Program:
 
-    def __init__(self, root='/repo', overlay=None):
+    def __init__(self, root='/repo', overlay=None, trees=None):
         self.root    = root
         self.pkgdir  = os.path.join(root, PKG)
         self.overlay = dict(overlay or {})
+        self.trees   = trees or {}      # rel -> pre-built ast.Module
         self.sources = {}
         self.modules = {}
         self._mro_cache = {}
@@ -368,7 +372,8 @@ class Program:
         # two passes: paths first (imports need to know what exists)
         self._rels = set(self.sources)
         for rel in sorted(self.sources):
-            self.modules[rel] = Module(self, rel, self.sources[rel])
+            self.modules[rel] = Module(self, rel, self.sources[rel],
+                                       tree=self.trees.get(rel))
 
     def read_text(self, rel):
         """non-python file below the package dir (configs, shell scripts)"""
